@@ -1,7 +1,7 @@
 (* Correspondence cases for C02: the driver ran the real getToken / Manager.Authenticate (http and jwt methods) against a
    local auth server and a local JWKS server, and ships the oracle values computed by the real libraries. *)
 From Coq Require Import List ZArith Bool.
-Require Import MTX.Lib.Utf8 MTX.Lib.Json MTX.Model.C01_Auth MTX.Model.C02_AuthExt.
+Require Import MTX.Lib.Utf8 MTX.Lib.Json MTX.Model.C01_Auth MTX.Model.C02_AuthExt MTX.Model.C02_Jwks.
 Import ListNotations.
 Local Open Scope Z_scope.
 
@@ -29,6 +29,13 @@ Inductive vclaims := VC (sub iss : list Z) (aud : list (list Z)) (raw : option (
 
 Inductive obs := OGranted (user : list Z) | ODenied (ask : bool) | OPanic.
 
+(* a session on one Manager: Authenticate calls (with what the JWKS server would answer at that moment: Some key-set id,
+   None = no usable answer), RefreshJWTJWKS calls, and the refresh period passing *)
+Inductive sstep :=
+| SAuth (served : option Z) (q : creq) (shape : qshape) (real : qreal) (o : obs)
+| SRefresh
+| SExpire.
+
 Inductive case :=
 | Tok (inq : bool) (q : creq) (shape : qshape) (real : qreal) (observed : list Z)            (* getToken(inq, req) *)
 | Http (ex : permlist) (rx : rxtable) (q : creq) (shape : qshape) (real : qreal)
@@ -43,7 +50,14 @@ Inductive case :=
       (decp : list (list Z * option permlist))                          (* raw JSON -> []AuthInternalUserPermission *)
       (decs : list (list Z * option (list Z)))                          (* raw JSON -> string *)
       (known : list (list Z * tinfo))                                   (* by construction *)
-      (o : obs).
+      (o : obs)
+| JwtSeq (ex : permlist) (rx : rxtable) (inq : option bool) (issuer audience : list Z)
+         (keysets : list (Z * list Z))                                  (* key-set id -> ids of its keys (by construction) *)
+         (parse : list ((list Z * list Z) * option vclaims))            (* ([key-set id], candidate token) -> golang-jwt *)
+         (decp : list (list Z * option permlist))
+         (decs : list (list Z * option (list Z)))
+         (known : list (list Z * (Z * tinfo)))                          (* token -> (id of the signing key, the rest) *)
+         (steps : list sstep).
 
 (* ---- tables -------------------------------------------------------------------------------- *)
 
@@ -57,6 +71,12 @@ Fixpoint lookup2 {B} (t : list ((list Z * list Z) * B)) (k1 k2 : list Z) : optio
   match t with
   | [] => None
   | ((a, b), v) :: r => if list_eqb a k1 && list_eqb b k2 then Some v else lookup2 r k1 k2
+  end.
+
+Fixpoint lookupZ {B} (t : list (Z * B)) (k : Z) : option B :=
+  match t with
+  | [] => None
+  | (k', v) :: r => if k' =? k then Some v else lookupZ r k
   end.
 
 Definition get {B} (d : B) (o : option B) : B := match o with Some v => v | None => d end.
@@ -112,6 +132,48 @@ Definition rx_complete (rx : rxtable) (path : list Z) (ps : permlist) : bool :=
                     | [] => true
                     end) ps.
 
+Fixpoint obs_list_eqb (a b : list obs) : bool :=
+  match a, b with
+  | [], [] => true
+  | x :: a', y :: b' => obs_eqb x y && obs_list_eqb a' b'
+  | _, _ => false
+  end.
+
+Definition mismatch_seq (ex : permlist) (rx : rxtable) (inq : option bool) (issuer audience : list Z)
+  (keysets : list (Z * list Z)) (parse : list ((list Z * list Z) * option vclaims))
+  (decp : list (list Z * option permlist)) (decs : list (list Z * option (list Z))) (steps : list sstep) : bool :=
+  let f_verify := fun (k : Z) t => match flat (lookup2 parse [k] t) with Some v => Some (m_claims v) | None => None end in
+  let f_decp := fun raw => match flat (lookup1 decp raw) with Some ps => Some (map m_perm ps) | None => None end in
+  let f_decs := fun raw => flat (lookup1 decs raw) in
+  let evs := map (fun s => match s with
+                           | SAuth served q _ _ _ => EAuth Z served (m_req q)
+                           | SRefresh => ERefresh Z
+                           | SExpire => EExpire Z
+                           end) steps in
+  let observed := flat_map (fun s => match s with SAuth _ _ _ _ o => [o] | _ => [] end) steps in
+  let outs := snd (run Z (m_rx rx) f_verify f_decp f_decs issuer audience (map m_perm ex) inq (js_init Z) evs) in
+  negb (obs_list_eqb (map obs_of outs) observed)
+  || negb (forallb (fun s => match s with
+                             | SAuth _ q shape real _ =>
+                                 query_model_ok q shape real && rx_complete rx (q_path q) ex &&
+                                 (* every key set has its verdict on the token the model selects *)
+                                 match get_token (in_query_flag true inq) (m_req q) with
+                                 | [] => true
+                                 | tok => forallb (fun ks => present (lookup2 parse [fst ks] tok)) keysets
+                                 end
+                             | _ => true
+                             end) steps)
+  || negb (forallb (fun e => match snd e with
+                             | Some (VC _ _ _ raw lib_ok as v) =>
+                                 Bool.eqb lib_ok (forallb (opt_ok (m_claims v)) (parser_opts issuer audience)) &&
+                                 match raw with
+                                 | Some rw => present (lookup1 decp rw) &&
+                                              (present (flat (lookup1 decp rw)) || present (lookup1 decs rw))
+                                 | None => true
+                                 end
+                             | None => true
+                             end) parse).
+
 Definition mismatch (c : case) : bool :=
   match c with
   | Tok inq q shape real observed =>
@@ -161,6 +223,8 @@ Definition mismatch (c : case) : bool :=
                       | Some _ => true
                       end
                end)
+  | JwtSeq ex rx inq issuer audience keysets parse decp decs _ steps =>
+      mismatch_seq ex rx inq issuer audience keysets parse decp decs steps
   end.
 
 (* ---- the property on the observed results, without the model ----------------------------------- *)
@@ -234,6 +298,43 @@ Definition spec_body (q : creq) (tok : list Z) (fs : list (list Z * option (list
 Definition spec_settings (issuer audience iss : list Z) (aud : list (list Z)) : bool :=
   (s_is issuer [] || s_is iss issuer) && (s_is audience [] || existsb (s_is audience) aud).
 
+(* sessions. The key set in effect is the one the JWKS server handed out at the first request that was not excluded after
+   the last RefreshJWTJWKS / expiry of the refresh period (none if it had no usable answer then: the next such request
+   tries again); excluded requests are granted without consulting the JWKS. A token must verify iff its signing key is in
+   the key set in effect (and the rest of it is in order). Returns true when an observed outcome contradicts this. *)
+Fixpoint spec_seq (ex : permlist) (rx : rxtable) (flag : bool) (issuer audience : list Z) (keysets : list (Z * list Z))
+  (known : list (list Z * (Z * tinfo))) (cur : option Z) (steps : list sstep) : bool :=
+  match steps with
+  | [] => false
+  | SRefresh :: rest => spec_seq ex rx flag issuer audience keysets known None rest
+  | SExpire :: rest => spec_seq ex rx flag issuer audience keysets known None rest
+  | SAuth served q shape _ o :: rest =>
+      match q with CReq _ _ _ _ act path _ _ _ _ _ =>
+        if spec_grants rx act path ex then
+          match o with OGranted u => negb (s_is u []) | _ => true end
+          || spec_seq ex rx flag issuer audience keysets known cur rest
+        else
+          let eff := match cur with Some k => Some k | None => served end in
+          match spec_token flag q shape with
+          | None => spec_seq ex rx flag issuer audience keysets known eff rest
+          | Some tok =>
+              let info := match tok with [] => None | _ => lookup1 known tok end in
+              let '(ok, sub) := match eff, info with
+                                | Some ks, Some (keyid, TInfo true iss aud (Some ps) sub) =>
+                                    (existsb (Z.eqb keyid) (get [] (lookupZ keysets ks)) &&
+                                     spec_settings issuer audience iss aud && spec_grants rx act path ps, sub)
+                                | _, _ => (false, [])
+                                end in
+              match o with
+              | OGranted u => negb (ok && s_is u sub)
+              | ODenied a => ok || negb (Bool.eqb a (spec_ask q tok))
+              | OPanic => true
+              end
+              || spec_seq ex rx flag issuer audience keysets known eff rest
+          end
+      end
+  end.
+
 Definition spec_fail (c : case) : bool :=
   match c with
   | Tok inq q shape _ observed =>
@@ -277,4 +378,6 @@ Definition spec_fail (c : case) : bool :=
             end
         end
       end
+  | JwtSeq ex rx inq issuer audience keysets _ _ _ known steps =>
+      spec_seq ex rx (match inq with Some b => b | None => false end) issuer audience keysets known None steps
   end.
